@@ -573,6 +573,45 @@ pub fn gen_streams(out: &mut Out, thorough: bool, opts: &[&str], focus: &str) {
             l(req_bytes(doc.as_bytes(), o), out);
         }
     }
+    // (j) character-class aliasing: every character of documents covering every token type is
+    // replaced by characters that a truncating cast (`as u8`, `as u16`), a Unicode-aware class test
+    // (`is_whitespace`, `is_numeric`, `is_alphanumeric`, `to_digit` on non-ASCII, `is_control`) or a
+    // lookalike would confuse with it
+    {
+        let templates = [
+            "{\"a\\u00e9\\ud83d\\ude00\\n\":[-12.50e+3,true,false,null,\"x\"], \"b\" : {}}",
+            " [0.1E-7 ,\t\"\\uABcd\\\\\"\r\n, -0 ] ",
+            "\"\\u0041\\udbff\\udfff\"",
+        ];
+        let lookalike: &[char] = &['\u{a0}', '\u{2003}', '\u{3000}', '\u{feff}', '\u{b}', '\u{c}', '\u{85}', '\u{2028}', '\u{660}', '\u{ff11}', '\u{ff45}', '\u{435}', '\u{201c}', '\u{ff02}', '\u{ff0c}', '\u{ff3b}', '\u{ff5b}', '\u{2212}', '\u{7f}', '\u{9f}'];
+        let mut n = 0u64;
+        for t in templates {
+            let chars: Vec<char> = t.chars().collect();
+            for k in 0..chars.len() {
+                let a = chars[k] as u32;
+                let mut alts: Vec<char> = Vec::new();
+                for d in [0x100u32, 0x200, 0x300, 0x2000, 0xff00, 0x10000, 0x20000, 0x100000] {
+                    if let Some(c) = char::from_u32(a + d) { alts.push(c); }
+                }
+                alts.extend_from_slice(lookalike);
+                for (j, c) in alts.iter().enumerate() {
+                    let mut m = chars.clone();
+                    m[k] = *c;
+                    let o = opts[(k + j) % opts.len()];
+                    l(req_str(&m.iter().collect::<String>(), o), out);
+                    n += 1;
+                    if j % 3 == 0 {
+                        let mut m = chars.clone();
+                        m.insert(k, *c);
+                        l(req_str(&m.iter().collect::<String>(), o), out);
+                        n += 1;
+                    }
+                }
+            }
+        }
+        out.count_n("stream_char_aliasing", n);
+        out.exhaustive.push("every character position of 3 documents covering every token type x (the character + 0x100/0x200/0x300/0x2000/0xff00/0x10000/0x20000/0x100000, and 20 Unicode lookalikes of whitespace, digits, letters, quotes, separators, controls): replaced, and every third also inserted".into());
+    }
     // (i) UTF-8 byte sequences inside a string
     let mut b0 = 0x80u32;
     while b0 < 0x100 {
